@@ -106,6 +106,23 @@ def audit_sources():
     return hits
 
 
+# theorems that also carry properties the slice author did not list
+SERVES_EXTRA = {
+    "Fp.Block.frontier_eq_consumed": ["C01"],
+    "Fp.Block.block_closed": ["C01"],
+    "Fp.Block.items_once_in_order": ["C01", "C10"],
+    "Fp.Block.comments_once_in_order": ["C01"],
+    "Fp.Reader.join_continuation": ["C01"],
+    "Fp.Reader.get_put_inverse": ["C01", "C11", "C14"],
+    "Fp.Reader.read_comments_once": ["C01"],
+    "Fp.Splitline.splitquote_join": ["C01"],
+    "Fp.Expr.parse_sound": ["C01"],
+    "Fp.Tree.parents_consistent": ["C18"],
+    "Fp.Expr.parse_fuel_enough": ["C20"],
+    "Fp.Reader.drain_unique": ["C06"],
+}
+
+
 def root_imports():
     with open(os.path.join(LEAN, "FparserModel.lean")) as f:
         return set(re.findall(r"^import\s+([\w.]+)", f.read(), re.M))
@@ -125,6 +142,7 @@ def theorem_index(include_open=False):
             with open(os.path.join(d, f)) as fh:
                 for t in json.load(fh):
                     t["model"] = f[:-5]
+                    t["serves"] = sorted(set(t.get("serves", [])) | set(SERVES_EXTRA.get(t.get("name", ""), [])))
                     mod = t.get("file", "")
                     mod = (mod[:-5] if mod.endswith(".lean") else mod).replace("/", ".")
                     t["module"] = mod
